@@ -12,6 +12,15 @@ use dashu_int::{
     UBig,
 };
 
+/// Parse an unsigned run of digits (underscores allowed). The sign of the number has been
+/// handled by the caller, so a sign in front of a part of the number is an error.
+fn parse_digits(src: &str, radix: u32) -> Result<UBig, ParseError> {
+    if src.starts_with('+') {
+        return Err(ParseError::InvalidDigit);
+    }
+    UBig::from_str_radix(src, radix)
+}
+
 impl<const B: Word> Repr<B> {
     /// Convert a string in the native base (i.e. radix `B`) to [Repr].
     ///
@@ -94,13 +103,13 @@ impl<const B: Word> Repr<B> {
                     if int_str.is_empty() {
                         (UBig::ZERO, digits, 16)
                     } else {
-                        (UBig::from_str_radix(int_str, 16)?, digits, 16)
+                        (parse_digits(int_str, 16)?, digits, 16)
                     }
                 } else if B == 2 && pmarker && !has_prefix {
                     return Err(ParseError::UnsupportedRadix);
                 } else {
                     let digits = int_str.len() - int_str.matches('_').count();
-                    (UBig::from_str_radix(&src[..dot], B as u32)?, digits, B as u32)
+                    (parse_digits(&src[..dot], B as u32)?, digits, B as u32)
                 }
             } else {
                 if pmarker {
@@ -117,7 +126,7 @@ impl<const B: Word> Repr<B> {
                 if B == 2 && base == 16 {
                     digits *= 4;
                 }
-                (UBig::from_str_radix(src, base)?, digits)
+                (parse_digits(src, base)?, digits)
             } else {
                 (UBig::ZERO, 0)
             };
@@ -134,12 +143,12 @@ impl<const B: Word> Repr<B> {
             if B == 2 && has_prefix {
                 src = &src[2..];
                 ndigits = 4 * (src.len() - src.matches('_').count());
-                UBig::from_str_radix(src, 16)?
+                parse_digits(src, 16)?
             } else if B == 2 && pmarker && !has_prefix {
                 return Err(ParseError::UnsupportedRadix);
             } else {
                 ndigits = src.len() - src.matches('_').count();
-                UBig::from_str_radix(src, B as u32)?
+                parse_digits(src, B as u32)?
             }
         };
 
